@@ -50,6 +50,10 @@ def jobs(tier):
             for alg in HEUR + EXACT:
                 J.append(job('C01', alg, n, k, order='desc', checks=ck))
             J.append(job('C01', 'cg', n, k, obj='diff', cg_mask=11, order='desc', checks=ck))
+        # multifit with its default ten iterations on 8-10 items with repeated values: does not finish within its budget
+        # (bug hunting only: an unfinished shape is excluded from the stated bound, but a model found on the way is still reported)
+        J.append(job('C01', 'multifit', 10, 3, order='desc', groups=[2, 4, 4], checks=ck, mandatory=False))
+        J.append(job('C01', 'multifit', 8, 3, order='desc', groups=[2, 3, 3], checks=ck, mandatory=False))
         J.append(job('C01', 'cbldm', 5, 2, checks=ck))
         J.append(job('C01', 'cbldm', 6, 2, order='desc', checks=ck))
     return J
